@@ -26,7 +26,13 @@ public:
         if (this->count.size() != array.dataExtent().size()) {
             throw IncompatibleDimensions("DataView count dimensionality does not match dimensionality of data", "nix::DataView");
         }
-        if (this->offset + this->count > array.dataExtent()) {
+        const NDSize last = this->offset + this->count;
+        // a count or offset near the maximum wraps the sum around: such a window is far outside the data
+        bool wrapped = false;
+        for (size_t i = 0; i < last.size(); i++) {
+            wrapped = wrapped || last[i] < this->offset[i];
+        }
+        if (last > array.dataExtent() || wrapped) {
             throw OutOfBounds("Trying to create DataView which is out of bounds");
         }
     }
